@@ -298,6 +298,13 @@ theorem writeCacheFile_mem (s : CAStoreMem.State) (n : Name) (att : Option Attem
   repeat' split
   all_goals rfl
 
+theorem writeDisk_mem (s : CAStoreMem.State) (n : Name) (size : Nat) (att : Option Attempt) (pl : Int) :
+    (writeDisk H crc s n size att pl).1.mem = s.mem := by
+  unfold writeDisk
+  split
+  · rw [genMeta_mem, writeCacheFile_mem]
+  · rw [writeCacheFile_mem]
+
 theorem commitUpload_mem (s : CAStoreMem.State) (u : String) (n : Name) : (commitUpload H s u n).1.mem = s.mem := by
   unfold commitUpload
   repeat' split
@@ -351,10 +358,10 @@ theorem writeBlob_acct {s : CAStoreMem.State} (h : Acct s) (name : Name) (size :
       · simp only [reserved, heq]; exact h.nodup
       · simp only [reserved, heq]; exact hle
     · refine acct_of_eq h ?_
-      rw [writeCacheFile_mem]
+      rw [writeDisk_mem]
       simp only [released, reserved]
       exact release_reserve hres
-  · exact acct_of_eq h (writeCacheFile_mem ..)
+  · exact acct_of_eq h (writeDisk_mem ..)
 
 /-- a write-through call either leaves the memory cache exactly as it was (reservation refused, or made
 and released again), or it succeeded through the memory path and added one entry of exactly the
@@ -398,10 +405,10 @@ theorem writeBlob_mem (s : CAStoreMem.State) (name : Name) (size : Nat) (atts : 
                   rw [heq2]
                   simp only [reserved, heq]
     · left
-      rw [writeCacheFile_mem]
+      rw [writeDisk_mem]
       simp only [released, reserved]
       exact release_reserve hres
-  · left; exact writeCacheFile_mem ..
+  · left; exact writeDisk_mem ..
 
 theorem dropFromMem_acct {s : CAStoreMem.State} (h : Acct s) (n : Name) : Acct (dropFromMem s n) := by
   have := Mem.remove_good (o := 0) (by simpa using h.bal) h.nodup n
